@@ -453,6 +453,55 @@ static void run_product_nonfinite(int kn, unsigned row, unsigned inner, unsigned
     free(X); free(Y); free(Xs); free(Ys); free(ref);
 }
 
+/* Aliased operands: the SAME array passed as X and as Y (read-only operands may alias).  For X * Y^T the two operands share
+ * the inner dimension, so one array of max(row, col) rows serves as both with DIFFERENT row counts (all rows against the leading
+ * rows, or the reverse); for the other three products aliasing needs a square shape.  Reference from the integer definition on
+ * copies.  (Seeded change C09-H: a symmetric fast path taken when X == Y, which assumes row == col.) */
+static void run_product_aliased(int kn, unsigned row, unsigned inner, unsigned col, int ct, vf_rng *r)
+{
+    int const tx = (kn == KN_MULTM || kn == KN_MULTT), ty = (kn == KN_MULMT || kn == KN_MULTT);
+    unsigned const big = row > col ? row : col;
+    size_t const na = (size_t)big * inner, nz = (size_t)row * col;
+    int64_t *ai = (int64_t *)malloc(na * sizeof(int64_t));
+    double *A = in_new(na), *As, *ref = (double *)malloc(nz * sizeof(double));
+    outbuf Z = out_new(nz);
+    char call[200];
+    char const *cls = shape_class3(row, inner, col);
+    if (!ai || !ref) { fprintf(stderr, "C09: out of memory\n"); exit(2); }
+    if (kn != KN_MULMT && !(row == inner && inner == col)) { fprintf(stderr, "C09: aliased product needs a square shape\n"); exit(2); }
+    fill_int(r, ct, ai, na, 0);
+    for (size_t i = 0; i < na; ++i) { A[i] = (double)ai[i]; }
+    As = in_dup(A, na);
+    for (unsigned i = 0; i < row; ++i)
+    {
+        for (unsigned j = 0; j < col; ++j)
+        {
+            int64_t s = 0;
+            for (unsigned k = 0; k < inner; ++k)
+            {
+                int64_t const a = tx ? ai[(size_t)k * row + i] : ai[(size_t)i * inner + k];
+                int64_t const b = ty ? ai[(size_t)j * inner + k] : ai[(size_t)k * col + j];
+                s += a * b;
+            }
+            ref[(size_t)i * col + j] = (double)s;
+        }
+    }
+    snprintf(call, sizeof(call), "a_real_%s(row=%u,inner=%u,col=%u) with the SAME %ux%u array as X and Y, %s", kn_name[kn], row, inner, col, big, inner, ct_name[ct]);
+    vf_log("%s A[0]=%.17g", call, A[0]);
+    switch (kn)
+    {
+    case KN_MULMM: a_real_mulmm(row, inner, col, A, A, Z.p); break;
+    case KN_MULTM: a_real_mulTm(inner, row, col, A, A, Z.p); break;
+    case KN_MULMT: a_real_mulmT(row, col, inner, A, A, Z.p); break;
+    default: a_real_mulTT(row, inner, col, A, A, Z.p); break;
+    }
+    judge(kn, cls, &Z, ref, row, col, call, "entry-ne-exact-product-with-aliased-operands");
+    judge_input(kn, cls, "X=Y", A, As, na, call);
+    VF_COUNT("products-with-aliased-operands");
+    out_free(&Z);
+    free(A); free(As); free(ai); free(ref);
+}
+
 /* ------------------------------------------------------------------ rectangular / square kernels */
 /* one m x n input A with content class ct; runs every kernel applicable to the shape */
 static void run_rect(unsigned m, unsigned n, int ct, vf_rng *r)
@@ -755,6 +804,13 @@ static void vf_case(uint64_t c, vf_rng *r)
             unsigned const which = (unsigned)(p.arg % 3);
             int const ct = (int)vf_below(r, 3);
             d[which] = big_dim(r);
+            {
+                /* aliased operands: X * Y^T with one array and different row counts, the other kernels on a square */
+                unsigned const ar = (unsigned)vf_range(r, 1, 7), ac = (unsigned)vf_range(r, 1, 7), ai_ = (unsigned)vf_range(r, 1, 6), sq = (unsigned)vf_range(r, 1, 6);
+                run_product_aliased(KN_MULMT, ar, ai_, ac, (int)vf_below(r, 3), r);
+                run_product_aliased(KN_MULMT, ac, ai_, ar, (int)vf_below(r, 3), r);
+                for (int kn = KN_MULMM; kn <= KN_MULTT; ++kn) { run_product_aliased(kn, sq, sq, sq, (int)vf_below(r, 3), r); }
+            }
             vf_log("products, one large dimension: row=%u inner=%u col=%u", d[0], d[1], d[2]);
             for (int kn = KN_MULMM; kn <= KN_MULTT; ++kn) { run_product(kn, d[0], d[1], d[2], ct, r); }
             VF_COUNT("products-with-one-large-dimension");
